@@ -269,11 +269,16 @@ def r52(ctx: Ctx) -> RuleReport:
         st = [n for n in ast.walk(loop) if isinstance(n, ast.Assign) and norm(n.targets[0]) == f'{vm}[{v}]']
         if st:
             sn = cfg.node_of(st[0])
-            facts_cond = next((nd for nd in cfg.nodes if nd.kind == 'cond' and norm(nd.ast) == f'{v} not in {vm}'), None)
             head = cfg.node_of(loop)
-            if facts_cond is not None:
-                skip = cfg.path_avoiding([(facts_cond.id, 'T')], {head, cfg.exit}, lambda nd: nd.id == sn)
-                good = skip is None
+            for nd in cfg.nodes:
+                if nd.kind == 'cond' and norm(nd.ast) in (f'{v} not in {vm}', f'{v} in {vm}'):
+                    edge = 'T' if ' not in ' in norm(nd.ast) else 'F'
+                    skip = cfg.path_avoiding([(nd.id, edge)], {head, cfg.exit}, lambda x: x.id == sn)
+                    good = skip is None
+                    if skip:
+                        rep.violation('penman.tree:Tree.reset_variables: every node variable not yet mapped receives a new name', fi.loc(nd.ast),
+                                      'an unmapped variable can pass without being given a name: ' + ' -> '.join(repr(cfg.nodes[p]) for p in skip[-4:]))
+                        return rep
     rep.add('penman.tree:Tree.reset_variables: every node variable not yet mapped receives a new name', fi.loc(), 'ok' if good else 'undecided')
     return rep
 
@@ -525,9 +530,22 @@ def r58(ctx: Ctx) -> RuleReport:
     rep.add('penman.layout:_interpret_node: the same variable set is used at every depth', inner.loc(), 'ok' if good else 'undecided')
     # Tree.nodes / _nodes cover the top and every nested node
     nf = ctx.repo.func('penman.tree', '_nodes')
-    srcn = norm(nf.node)
+    from ..resolve import facts_ex
+    np_ = nf.positional[0]
+    self_in = any((isinstance(n, ast.List) and any(norm(e) == np_ for e in n.elts)) or
+                  (isinstance(n, ast.Call) and isinstance(n.func, ast.Attribute) and n.func.attr == 'append' and n.args and norm(n.args[0]) == np_)
+                  for n in walk_local(nf.node))
+    loops = [n for n in walk_local(nf.node) if isinstance(n, ast.For)]
+    rec_ok = False
+    for lp in loops:
+        tv = norm(lp.target.elts[1]) if isinstance(lp.target, ast.Tuple) and len(lp.target.elts) == 2 else None
+        for c in ast.walk(lp):
+            if isinstance(c, ast.Call) and norm(c.func) == nf.name and c.args and tv and norm(c.args[0]) == tv:
+                fx = facts_ex(ctx, nf, c)
+                if (f'is_atomic({tv})', False) in fx and not [x for x in ast.walk(lp) if isinstance(x, (ast.Break, ast.Return))]:
+                    rec_ok = True
     rep.add('penman.tree:_nodes: the node itself and, recursively, every non-atomic branch target', nf.loc(),
-            'ok' if '[node]' in srcn and '_nodes(target)' in srcn and 'not is_atomic(target)' in srcn else 'undecided')
+            'ok' if self_in and rec_ok else 'undecided', f'node itself listed: {self_in}; recursion into every nested target: {rec_ok}')
     return rep
 
 
@@ -597,3 +615,201 @@ def _flatten(t):
                 for y in x:
                     if isinstance(y, frozenset):
                         yield from _flatten(y)
+
+
+@rule('R61', 'no library function keeps results in module-level state (a result never depends on earlier calls)')
+def r61(ctx: Ctx) -> RuleReport:
+    rep = RuleReport('R61', r61.title, floor=0)
+    probe = ast.parse('_memo = None\ndef f(g):\n    global _memo\n    if _memo is not None and _memo[0] == g:\n        return _memo[1]\n    _memo = (g, 1)\n    return 1\n').body[1]
+    if not _global_rebinds(probe):
+        raise AnalysisError('R61 self-test: a global rebinding is not recognised')
+    n = 0
+    for fi in ctx.repo.all_functions():
+        if fi.module.name.startswith('penman.__main__') or fi.module.name == 'penman.main':
+            continue
+        n += 1
+        for name, st in _global_rebinds(fi.node):
+            reads = [x for x in walk_local(fi.node) if isinstance(x, ast.Name) and x.id == name and isinstance(x.ctx, ast.Load)]
+            rets = [x for x in walk_local(fi.node) if isinstance(x, ast.Return) and x.value is not None
+                    and any(isinstance(y, ast.Name) and y.id == name for y in ast.walk(x.value))]
+            # only argument-dependent data is a memo; a lazily created constant (default model, compiled pattern) is not
+            tainted = set(fi.params)
+            changed = True
+            while changed:
+                changed = False
+                for x in walk_local(fi.node):
+                    if isinstance(x, (ast.Assign, ast.AugAssign, ast.AnnAssign, ast.For)) and getattr(x, 'value', getattr(x, 'iter', None)) is not None:
+                        srcs = {y.id for y in ast.walk(x.value if not isinstance(x, ast.For) else x.iter) if isinstance(y, ast.Name)}
+                        if srcs & tainted:
+                            tg = x.targets if isinstance(x, ast.Assign) else [x.target]
+                            for t in tg:
+                                for y in ast.walk(t):
+                                    if isinstance(y, ast.Name) and y.id not in tainted:
+                                        tainted.add(y.id)
+                                        changed = True
+            val = getattr(st, 'value', None)
+            dep = val is not None and any(isinstance(y, ast.Name) and y.id in tainted and y.id != name for y in ast.walk(val))
+            rep.add(f'{fi.module.name}:{fi.qualname}: global {name}', fi.loc(st), 'violation' if reads and dep else 'info',
+                    f'`{name}` is module-level state that the function both rebinds and reads'
+                    + (' and returns from' if rets else '') +
+                    ': a later call can be answered from an earlier call\'s data, so the result depends on the call history '
+                    '(any key comparison short of identity plus immutability lets two different arguments share an answer)' if reads and dep else '')
+    rep.analysed['functions'] = n
+    return rep
+
+
+def _global_rebinds(fn) -> List[Tuple[str, ast.stmt]]:
+    names: Set[str] = set()
+    for n in ast.walk(fn):
+        if isinstance(n, ast.Global):
+            names |= set(n.names)
+    out = []
+    for n in ast.walk(fn):
+        if isinstance(n, (ast.Assign, ast.AugAssign, ast.AnnAssign)):
+            tg = n.targets if isinstance(n, ast.Assign) else [n.target]
+            for t in tg:
+                for x in ast.walk(t):
+                    if isinstance(x, ast.Name) and x.id in names and isinstance(x.ctx, ast.Store):
+                        out.append((x.id, n))
+    return out
+
+
+@rule('R62', 'a search through a model table goes on after an entry that does not match')
+def r62(ctx: Ctx) -> RuleReport:
+    from ..resolve import view
+    rep = RuleReport('R62', r62.title, floor=1)
+    for qn in ('Model.dereify', 'Model.reify'):
+        fi = ctx.repo.func('penman.model', qn)
+        v = view(ctx, fi)
+        for loop in [n for n in walk_local(fi.node) if isinstance(n, ast.For) and ('reifications[' in norm(n.iter) or 'dereifications[' in norm(n.iter))]:
+            tnames = {x.id for x in ast.walk(loop.target) if isinstance(x, ast.Name)}
+            key = f'{fi.fq}: for {norm(loop.target)} in {norm(loop.iter)[:40]}'
+            exits = [x for x in ast.walk(loop) if isinstance(x, (ast.Break, ast.Raise)) and x is not loop]
+            bad = None
+            for x in exits:
+                # arms of the if/elif chain(s) over the entry that enclose the exit: body = matched, orelse = did not match
+                about = []
+                child = x
+                while child is not loop and id(child) in v.pm:
+                    par = v.pm[id(child)]
+                    if isinstance(par, ast.If) and tnames & {y.id for y in ast.walk(par.test) if isinstance(y, ast.Name)}:
+                        if any(child is b for b in par.body):
+                            about.append((norm(par.test), True))
+                        elif any(child is b for b in par.orelse):
+                            about.append((norm(par.test), False))
+                    child = par
+                if about and all(not pol for _, pol in about):
+                    bad = (x, about)
+            if bad is not None:
+                x, about = bad
+                rep.violation(key, fi.loc(x), f'`{norm(x)}` is reached exactly when the entry does not match ({[f for f, _ in about][:2]} are false): only the '
+                              f'first table entry is ever consulted, so a concept or role with several (de)reifications fails for all but the first')
+            else:
+                rep.ok(key, fi.loc(loop), 'the loop leaves only on a match (or when the table is exhausted)')
+    return rep
+
+
+def _names_in(src: str) -> Set[str]:
+    try:
+        return {x.id for x in ast.walk(ast.parse(src, mode='eval')) if isinstance(x, ast.Name)}
+    except SyntaxError:
+        return set()
+
+
+@rule('R63', 'an alignment converted between role and target alignments keeps its prefix as well as its indices')
+def r63(ctx: Ctx) -> RuleReport:
+    rep = RuleReport('R63', r63.title, floor=2)
+    classes = {'Alignment', 'RoleAlignment', 'AlignmentMarker'}
+    for fi in ctx.repo.all_functions():
+        if fi.module.name == 'penman.surface' and fi.cls is not None:
+            continue            # the classes' own parsers build from text, not from another marker
+        for c, ts in ctx.cg.calls_in(fi):
+            if not any(t.kind == 'class' and t.cls.name in classes for t in ts):
+                continue
+            if not c.args or not (isinstance(c.args[0], ast.Attribute) and c.args[0].attr == 'indices'):
+                continue
+            src = norm(c.args[0].value)
+            pre = next((k.value for k in c.keywords if k.arg == 'prefix'), c.args[1] if len(c.args) > 1 else None)
+            key = f'{fi.module.name}:{fi.qualname}: {norm(c.func)}({src}.indices, ...)'
+            if pre is not None and norm(pre) == f'{src}.prefix':
+                rep.ok(key, fi.loc(c))
+            elif pre is None:
+                rep.violation(key, fi.loc(c), f'the new marker copies {src}.indices but not {src}.prefix: an alignment written ~e.1 comes back as ~1')
+            else:
+                rep.undecided(key, fi.loc(c), f'prefix={norm(pre)}')
+    return rep
+
+
+@rule('R64', 'no open-class pattern in a model\'s role table matches a role ending in -of (such a role could no longer be told from an inversion)')
+def r64(ctx: Ctx) -> RuleReport:
+    from ..rx import Lang, ParsedPattern, sre_c
+    rep = RuleReport('R64', r64.title, floor=20)
+    of = Lang.from_pattern(r'.*-of')
+    n = 0
+    for m in ctx.repo.modules.values():
+        if not m.name.startswith('penman.models.') or 'roles' not in m.constants:
+            continue
+        node = m.constants['roles']
+        if not isinstance(node, ast.Dict):
+            rep.undecided(f'{m.name}: roles table', m.relpath, 'not a dict literal')
+            continue
+        for k in node.keys:
+            ok, pat = try_fold(k, {}, ctx.repo, m)
+            if not ok or not isinstance(pat, str):
+                rep.undecided(f'{m.name}: role pattern {norm(k)[:30]}', f'{m.relpath}:{k.lineno}', 'key is not a constant string')
+                continue
+            n += 1
+            pp = ParsedPattern(pat)
+            literal = all(op is sre_c.LITERAL for op, _ in pp.tree)
+            if literal:
+                rep.ok(f'{m.name}: role {pat}', f'{m.relpath}:{k.lineno}', 'a single role')
+                continue
+            w = Lang(pp.rx).witness_intersection(of)
+            rep.add(f'{m.name}: role pattern {pat}', f'{m.relpath}:{k.lineno}', 'violation' if w is not None else 'ok',
+                    f'the open-class pattern {pat!r} also matches {w!r}: the model then *defines* that role, so it is not recognised as the inversion of '
+                    f'{w[:-3]!r}; an edge written from its target\'s side with this role decodes with source and target the wrong way round'
+                    if w is not None else 'cannot match a role ending in -of')
+    rep.analysed['role_patterns'] = n
+    return rep
+
+
+@rule('R65', 'dereification carries every marker of the replaced triple over, except the role alignment it replaces')
+def r65(ctx: Ctx) -> RuleReport:
+    from ..select import Selector
+    rep = RuleReport('R65', r65.title, floor=1)
+    fi = ctx.repo.func('penman.transform', '_dereify_agenda')
+    sel = Selector(ctx)
+    want = bn.mk_not(('atom', 'isinstance(t, RoleAlignment)'))
+    key = f'{fi.fq}: markers of the second triple are copied unless they are role alignments'
+    found = False
+    for n in walk_local(fi.node):
+        pred = None
+        if isinstance(n, (ast.GeneratorExp, ast.ListComp)) and len(n.generators) == 1 and '.epidata.get(' in norm(n.generators[0].iter) \
+                and norm(n.elt) == norm(n.generators[0].target):
+            g = n.generators[0]
+            s2 = sel.bind_target(g.target, {})
+            pred = bn.mk_and([sel.formula(fi, c, n, s2) for c in g.ifs])
+        elif isinstance(n, ast.For) and '.epidata.get(' in norm(n.iter):
+            try:
+                preds = sel.loop_predicates(fi, n, {})
+            except AnalysisError as exc:
+                rep.undecided(key, fi.loc(n), str(exc))
+                found = True
+                continue
+            same = [p for p, kind in preds.values() if kind == 'same']
+            if len(same) == 1:
+                pred = same[0]
+        if pred is None:
+            continue
+        found = True
+        d = bn.equivalent(pred, want)
+        if d is None:
+            rep.ok(key, fi.loc(n), bn.show(pred))
+        else:
+            dropped = bn.equivalent(bn.mk_and([want, bn.mk_not(pred)]), False)
+            rep.add(key, fi.loc(n), 'violation' if dropped is not None else 'undecided',
+                    f'a marker is copied only when {bn.show(pred)}: with {dropped} a marker that is not a role alignment is dropped, so layout '
+                    f'markers or alignments of the replaced triple are lost' if dropped is not None else bn.show(pred))
+    if not found:
+        rep.undecided(key, fi.loc(), 'no copy of g.epidata.get(<second triple>, []) found')
+    return rep
